@@ -32,7 +32,9 @@ def handle (line : String) : Out :=
         let spec := match toImpl e q with
           | some s' => render k' s' (e.spec.agencyOf q)
           | none => s!"acc={k'} *"
-        { model := render k s (e.impl.agencyOf s), spec := spec }
+        -- recorded finding: the NodeToClientV_20+ messages GetMeasures (11) / ReplyGetMeasures (12)
+        let cls := if isV20 e && syms.any (fun a => a.msg = 11 || a.msg = 12) then "ltm-getmeasures-missing" else ""
+        { model := render k s (e.impl.agencyOf s), spec := spec, cls := cls }
       else badOp
     | _, _ => badOp
   | _ => badOp
